@@ -734,7 +734,7 @@ func extractFunctionName
   props C05 C04 C06 C07 C16 C20
   option pure
   ensures no-parenthesis-no-name: strings.Index(expr, "(") == -1 ==> result == ""
-  ensures the-name-is-the-text-before-the-first-parenthesis-unless-it-holds-a-blank-or-an-operator: strings.Index(expr, "(") != -1 ==> result == ite(strings.ContainsAny(strings.TrimSpace(expr[:strings.Index(expr, "(")]), " +-*/=<>!&|"), "", strings.TrimSpace(expr[:strings.Index(expr, "(")]))
+  ensures the-name-is-the-text-before-the-first-parenthesis-unless-it-holds-a-blank-or-an-operator: strings.Index(expr, "(") != -1 ==> result == ite(strings.ContainsAny(strings.TrimSpace(expr[:strings.Index(expr, "(")]), " +-\x2a/=<>!&|"), "", strings.TrimSpace(expr[:strings.Index(expr, "(")]))
 
 // a function column: a registered function is executed with the arguments worked out from this expression on this
 // row, and its answer is the answer; anything else goes to the bridge as the same text on this row
@@ -1065,18 +1065,31 @@ func hasStarArg
   ensures a-star-among-the-arguments-blanks-aside: result <==> exists(j, 0, len(args), strings.TrimSpace(args[j]) == "*")
   loop 1 invariant forall(j, 0, $i, strings.TrimSpace(args[j]) != "*")
 
-extern literalValue
+func literalValue
   props C14 C12
   option pure
+  ensures the-two-truth-words-are-booleans: strings.TrimSpace(s) == "true" ==> result == boxof(true, bool)
+  ensures false-is-false: strings.TrimSpace(s) == "false" ==> result == boxof(false, bool)
+  before ParseFloat a-number-is-read-at-full-precision-from-the-trimmed-text: $arg1 == 64 && $arg0 == strings.TrimSpace(old(s))
+  before Atoi an-integer-is-read-from-the-trimmed-text: $arg0 == strings.TrimSpace(old(s))
 
 extern (*analyticFieldEngine).applyCall
   props C14 C12
   modifies *
   ensures the-engines-own-bookkeeping-is-not-touched: fe.lastResults == old(fe.lastResults) && mapUnchanged(fe.lastResults) && fe.whenCond == old(fe.whenCond) && fe.af == old(fe.af)
 
-extern analyticColName
+pred acnBare(e) := strings.Trim(strings.TrimSpace(e), "`")
+pred acnQuoted(t) := len(t) >= 2 && ((t[0] == 34 && t[len(t) - 1] == 34) || (t[0] == 39 && t[len(t) - 1] == 39))
+pred acnUnq(t) := ite(acnQuoted(t), t[1:len(t) - 1], t)
+pred acnLast(t) := ite(strings.LastIndex(t, ".") >= 0, t[strings.LastIndex(t, ".") + 1:], t)
+
+// the column an analytic argument names: blanks, backticks and one pair of quotes dropped, then the last segment of a
+// qualified name
+func analyticColName
   props C14 C12
+  option safety
   option pure
+  ensures the-column-is-the-last-segment-of-the-unquoted-name: result == acnLast(acnUnq(acnBare(expr)))
 
 // changed_cols and its kin: the partition and the WHEN gate are decided by the incoming row itself (not by the columns
 // being watched), the state consulted is the one of the row's own partition, and a row that fails WHEN repeats the
